@@ -188,7 +188,9 @@ def check(report, tier, only=None):
            ('write_response', lambda rep: C07_e2.ob_write(rep, 'response')),
            # the bundled per-peer limiter (anemo-tower) in front of a service: a peer that keeps requests queued must not be able to block executor threads
            # (no reference into the shared DashMap - a shard lock - is held across a suspension point)
-           ('inflight_limiter', lambda rep: __import__('props.C18', fromlist=['x']).ob_call(rep))]
+           ('inflight_limiter', lambda rep: __import__('props.C18', fromlist=['x']).ob_call(rep)),
+           # a payload the codec cannot decode is echoed into an error status: building that status must not panic on its (peer-controlled) text
+           ('status_conversions', lambda rep: __import__('props.C17', fromlist=['x']).ob_status_conversions_total(rep, PROP))]
     for n, f in obs:
         if only and not any(s in n for s in only):
             continue
